@@ -55,6 +55,7 @@ type JobOpts struct {
 	TimeoutMS int
 	MaxVisits int
 	MaxSteps  int
+	WallSecs  int // 0: no wall-clock limit
 	Trace     bool
 	Eager     bool
 }
@@ -120,6 +121,9 @@ func (w *World) RunJob(spec JobSpec, o JobOpts) (res *JobResult) {
 	}
 	if x.MaxVisits == 0 {
 		x.MaxVisits = 400
+	}
+	if o.WallSecs > 0 {
+		x.Deadline = time.Now().Add(time.Duration(o.WallSecs) * time.Second)
 	}
 	if x.MaxSteps == 0 {
 		x.MaxSteps = 5_000_000
